@@ -201,6 +201,15 @@ func (s *sink) lines() [][]byte {
 
 var idRe = regexp.MustCompile(`^\{"id":"(\d+)-(\d+)"`)
 
+// crossed: scenarios whose producer reached ANOTHER scenario's sink. The only way this can happen without a producer
+// fault is in the harness: a sink that is "down" has given up its port number, and a sink of a parallel scenario
+// may be given that number by the kernel; the first producer then reconnects to a stranger. Both scenarios are
+// inconclusive then - but only if the straying producer's own sink had a down period (hasDown); lines of a
+// producer whose sink never went away have no such excuse and stay a violation.
+var crossed sync.Map
+var hasDown = map[int]bool{}
+
+
 // waitFor blocks until a line with hand-over index k has been read by the sink.
 func (s *sink) waitFor(scn, k int, d time.Duration) bool {
 	deadline := time.Now().Add(d)
@@ -665,6 +674,11 @@ verdict:
 			}
 			continue
 		}
+		if from, _ := strconv.Atoi(string(m[1])); from != sc.ID && hasDown[from] {
+			crossed.Store(from, sc.ID)
+			crossed.Store(sc.ID, from)
+			continue
+		}
 		k, _ := strconv.Atoi(string(m[2]))
 		wit.Received = append(wit.Received, string(m[2]))
 		if k >= len(all) {
@@ -878,6 +892,14 @@ func main() {
 	kinds := map[string]int{}
 	sem := make(chan struct{}, 24)
 	var wg sync.WaitGroup
+	var pending []func()
+	for _, sc := range scs {
+		for _, f := range sc.Faults {
+			if f.Kind == "down" || f.Kind == "failover" {
+				hasDown[sc.ID] = true
+			}
+		}
+	}
 	for _, sc := range scs {
 		wg.Add(1)
 		sem <- struct{}{}
@@ -910,7 +932,15 @@ func main() {
 			}
 			if r.Kind != "" {
 				sig := "prod:" + sc.Proto + ":" + r.Kind
-				run.Violation(sig, fmt.Sprintf("scenario %d (%s): %s", sc.ID, desc, r.What), wit)
+				mu.Lock()
+				pending = append(pending, func() {
+					if other, ok := crossed.Load(sc.ID); ok {
+						run.Inconclusive(fmt.Sprintf("scenario %d (%s): its producer and that of scenario %v met at one sink port (a port number re-used by the kernel while a sink was down): %s not judged", sc.ID, desc, other, r.Kind))
+						return
+					}
+					run.Violation(sig, fmt.Sprintf("scenario %d (%s): %s", sc.ID, desc, r.What), wit)
+				})
+				mu.Unlock()
 			}
 			if sc.ID == 40 || sc.ID == 120 {
 				run.Sample(map[string]interface{}{"scenario": sc, "handed_over": r.Handed, "delivered": r.Delivered, "lost": r.Lost, "connections": r.Conns, "mq_error_count": r.ErrCount})
@@ -918,6 +948,13 @@ func main() {
 		}(sc)
 	}
 	wg.Wait()
+	// verdicts are reported once every scenario has read its sink: a crossing is only known then
+	for _, f := range pending {
+		f()
+	}
+	ncross := 0
+	crossed.Range(func(_, _ interface{}) bool { ncross++; return true })
+	run.Set("scenarios_whose_producer_met_another_scenarios_sink", int64(ncross))
 	natsCheck(run, dir)
 	// canary: the stream oracle must notice a modified line
 	{
